@@ -5,9 +5,9 @@
 d=$1; shift
 tmp=$(mktemp -d /tmp/seedeval_XXXX)
 for x in emu_base emu_mps emu_sv pyproject.toml ci test; do cp -r /repo/$x $tmp/ 2>/dev/null; done
-echo "== demo on unchanged copy"; (cd $tmp && PYTHONPATH=$tmp timeout 900 /venv/bin/python $d/demo.py > $tmp/demo0.log 2>&1; echo "exit=$?"; tail -2 $tmp/demo0.log)
+echo "== demo on unchanged copy"; (cd $tmp && PYTHONPATH=$tmp timeout 1500 /venv/bin/python $d/demo.py > $tmp/demo0.log 2>&1; echo "exit=$?"; tail -2 $tmp/demo0.log)
 (cd $tmp && patch -p1 -s < $d/patch.diff) || { echo "PATCH FAILED"; rm -rf $tmp; exit 3; }
-echo "== demo on changed copy"; (cd $tmp && PYTHONPATH=$tmp timeout 900 /venv/bin/python $d/demo.py > $tmp/demo1.log 2>&1; echo "exit=$?"; tail -3 $tmp/demo1.log)
+echo "== demo on changed copy"; (cd $tmp && PYTHONPATH=$tmp timeout 1500 /venv/bin/python $d/demo.py > $tmp/demo1.log 2>&1; echo "exit=$?"; tail -3 $tmp/demo1.log)
 for p in "$@"; do
   echo "== ./check $p --repo <changed copy>"
   (cd /verif && timeout 1800 ./check $p --repo $tmp 2>&1 | grep -E "^VIOLATION|^UNDECIDED|^KNOWN|failed obligation|^C[0-9]+:" | head -8; echo "exit=${PIPESTATUS[0]}")
